@@ -2,6 +2,7 @@ package main
 
 import (
 	"fmt"
+	"sync"
 
 	"github.com/brocaar/lorawan/applayer/fragmentation"
 )
@@ -155,6 +156,46 @@ func drvFec(c *ctx) error {
 		c.emit(fecEvent([]byte{}, 0, 0))
 		c.emit(fecEvent([]byte{}, 4, 3))
 		c.emit(fecEvent(c.bytesN(12), 4, 0))
+	case "concurrent": // calls that overlap in time (a server fragmenting several images at once): every one of them is a call
+		type job struct {
+			data      []byte
+			size, red int
+			rows      [][]byte
+			res       string
+		}
+		for round := 0; round < c.n; round++ {
+			jobs := make([]*job, 8)
+			for i := range jobs {
+				size := 1 + c.rnd.Intn(24)
+				count := 1 + c.rnd.Intn(60)
+				jobs[i] = &job{data: c.bytesN(size * count), size: size, red: 1 + c.rnd.Intn(20)}
+			}
+			var wg sync.WaitGroup
+			start := make(chan struct{})
+			for _, j := range jobs {
+				wg.Add(1)
+				go func(j *job) {
+					defer wg.Done()
+					<-start
+					for rep := 0; rep < 20; rep++ { // the last result is kept; earlier ones only keep the calls overlapping
+						j.res, _ = observeFast(func() error {
+							var err error
+							j.rows, err = fragmentation.Encode(append([]byte{}, j.data...), j.size, j.red)
+							return err
+						})
+					}
+				}(j)
+			}
+			close(start)
+			wg.Wait()
+			for _, j := range jobs {
+				ev := M{"ev": "fec", "size": j.size, "red": j.red, "data": bs(j.data), "err": j.res, "intact": true, "concurrent": true}
+				if j.res == "" {
+					ev["rows"] = rowsVal(j.rows)
+				}
+				c.emit(ev)
+			}
+		}
 	case "cases": // (R): cases enumerated by TLC (m, red): data = distinguishable bytes
 		for _, cs := range c.cases {
 			m, red, size := num(cs["m"]), num(cs["red"]), num(cs["size"])
